@@ -42,6 +42,12 @@ func execLocal(line string) (impl, oracle string) {
 		return opRid(w[1])
 	case "conn":
 		return opConn(w[1])
+	case "chain":
+		return opChain(w[1], w[2])
+	case "chainraw":
+		return opChainRaw(w[1], w[2])
+	case "bootips":
+		return opBootIps(w[1], w[2], w[3])
 	case "conns":
 		return opConns(w[1])
 	case "disp":
